@@ -67,6 +67,10 @@ pub fn run(out: &mut Out, thorough: bool, seed: u64, extra: &[String]) {
         out.case(&format!("barrett_reduce_u64 {} {}", w, q), &cls, || hu::barrett_reduce_u64(w, &m).to_string());
         let j = r.below(3); let kk = (u64::MAX / q - j) * q + if j > 0 { r.below(2) * (q - 1) } else { 0 };
         out.case(&format!("barrett_reduce_u64 {} {}", kk, q), "kq-top", || hu::barrett_reduce_u64(kk, &m).to_string());
+        // the methods of `Modulus` and the in-place multi-word reduction (same lines as the free functions)
+        out.case(&format!("barrett_reduce_u64 {} {}", w, q), &format!("method-{}", cls), || m.reduce(w).to_string());
+        out.case(&format!("barrett_reduce_u128 {} {} {}", x0, x1, q), &format!("method-{}", cls), || m.reduce_u128(((x1 as u128) << 64) | x0 as u128).to_string());
+        out.case(&format!("barrett_reduce_u128 {} {} {}", k0, k1, q), "method-kq-top", || m.reduce_u128(k).to_string());
         out.case(&format!("multiply_u64_mod {} {} {}", w, w2, q), &cls, || hu::multiply_u64_mod(w, w2, &m).to_string());
         out.case(&format!("multiply_u64_mod {} {} {}", x, y, q), &cls, || hu::multiply_u64_mod(x, y, &m).to_string());
         out.case(&format!("mulop_new {} {}", y, q), &cls, || hu::MultiplyU64ModOperand::new(y, &m).quotient.to_string());
@@ -89,6 +93,8 @@ pub fn run(out: &mut Out, thorough: bool, seed: u64, extra: &[String]) {
         let nl = r.range(1, 8) as usize;
         let v = limbs(&mut r, nl);
         out.case(&format!("modulo_uint {} {}", fl(&v), q), &format!("limbs{}", nl), || hu::modulo_uint(&v, &m).to_string());
+        out.case(&format!("modulo_uint {} {}", fl(&v), q), &format!("inplace-limbs{}", nl), || { let mut x = v.clone(); hu::modulo_uint_inplace(&mut x, &m);
+            if x[1..].iter().all(|&h| h == 0) { x[0].to_string() } else { format!("high-words-left:{}", fl(&x)) } });
         let (g1, g2) = (r.word(), r.word());
         let (g1, g2) = if r.chance(1, 3) { let c = r.below(1 << 20) + 1; ((g1 >> 22).wrapping_mul(c), (g2 >> 22).wrapping_mul(c)) } else { (g1, g2) };
         out.case(&format!("gcd {} {}", g1, g2), "gcd", || hu::gcd(g1, g2).to_string());
